@@ -8,7 +8,7 @@ CONSTANTS
   Orders <- OrdOne
   FullOrder = FALSE
   Points <- Pts1
-  Feeds <- Fd1
+  Feeds <- NoFeeds
   PhaseMaps <- Ph1
   ReKVals <- NoReK
   MaxHist = 0
